@@ -372,6 +372,16 @@ def runAnnot (o : Opts) (recs : List (Rec × Option Rec)) (T : Tab) : String :=
 def showIds (l : List String) : String := if l.isEmpty then "-" else ",".intercalate l
 
 def idOK (s : String) : Bool := s ≠ "" && s.all fun c => c.isAlphanum || c = '_'
+/-- a class value that is a plain file name part: `[A-Za-z0-9_][A-Za-z0-9_.]*` -/
+def keyOK (s : String) : Bool :=
+  match s.toList with
+  | c :: t => (c.isAlphanum || c = '_') && t.all fun c => c.isAlphanum || c = '_' || c = '.' || c = ':'
+  | [] => false
+/-- a directory value: `[A-Za-z0-9_][A-Za-z0-9_:]*` -/
+def dirOK (s : String) : Bool :=
+  match s.toList with
+  | c :: t => (c.isAlphanum || c = '_') && t.all fun c => c.isAlphanum || c = '_' || c = ':'
+  | [] => false
 def seqOK (q : List UInt8) : Bool := !q.isEmpty && q.all fun b => 97 ≤ b && b ≤ 122
 
 /-- end to end (`CLIFilterSequence` + writers): the ids of the kept / discarded files, in order.
@@ -420,8 +430,43 @@ structure DOpts where
   lay : Option (List Nat) := none
   perm : Option (List Nat) := none
   seen : List String := []
+  /-- files present before the run -/
+  old : List (String × List String) := []
 
 def patOK (s : String) : Bool := s.all fun c => c.isAlphanum || c = '_' || c = '.'
+
+/-- `old<digits>` -/
+def oldIdOK (s : String) : Bool :=
+  match s.toList with
+  | 'o' :: 'l' :: 'd' :: ds => !ds.isEmpty && ds.all Char.isDigit
+  | _ => false
+
+def plainName (l : List Char) : Bool := !l.isEmpty && l.all fun c => c.isAlphanum || c = '_'
+
+/-- a file present before the run: `name` or `dir/name` (name: `[A-Za-z0-9_][A-Za-z0-9_.]*`) -/
+def oldNameOK (s : String) : Bool :=
+  let base := fun (l : List Char) =>
+    match l with
+    | c :: t => (c.isAlphanum || c = '_') && t.all fun c => c.isAlphanum || c = '_' || c = '.'
+    | [] => false
+  match s.splitOn "/" with
+  | [n] => base n.toList
+  | [d, n] => plainName d.toList && base n.toList
+  | _ => false
+
+def parseOldFile (f : String) : Option (String × List String) :=
+  match f.splitOn ":" with
+  | [n, ids] => do
+    let name ← unhexS n
+    if !oldNameOK name then none
+    let l ← if ids = "-" then some [] else
+      (ids.splitOn ".").mapM fun h => (unhexS h).bind fun i => if oldIdOK i then some i else none
+    pure (name, l)
+  | _ => none
+
+def parseOld (x : String) : Option (List (String × List String)) :=
+  ((x.splitOn ",").mapM parseOldFile).bind fun (l : List (String × List String)) =>
+    if (l.map (·.1)).Nodup && (l.flatMap (·.2)).Nodup then some l else none
 
 def parseDOpt (o : DOpts) (w : String) : Option DOpts :=
   let name := (w.splitOn "=").head!
@@ -430,6 +475,8 @@ def parseDOpt (o : DOpts) (w : String) : Option DOpts :=
   match w.splitOn "=" with
   | ["z"] => some { o with d := { o.d with compressed := true } }
   | ["long"] => some o
+  | ["A"] => some { o with d := { o.d with append := true } }
+  | ["old", x] => (parseOld x).map fun l => { o with old := l }
   | ["cl", x] => (argS x).map fun s => { o with d := { o.d with classifierTag := s } }
   | ["dir", x] => (argS x).map fun s => { o with d := { o.d with directoryTag := s } }
   | ["na", x] => (argS x).map fun s => { o with d := { o.d with naValue := s } }
@@ -509,7 +556,7 @@ def distState (d : Distribute.DistOpts) (hasPat : Bool) : String :=
   joinSp [
     "pattern=" ++ (if hasPat then hexS (d.patPre ++ "%s" ++ d.patSuf) else "-"),
     "classifier=" ++ hexS d.classifierTag, "directory=" ++ hexS d.directoryTag, "na-value=" ++ hexS d.naValue,
-    s!"batches={d.batchCount}", "append=0", s!"hash={d.hashSize}"]
+    s!"batches={d.batchCount}", "append=" ++ b01 d.append, s!"hash={d.hashSize}"]
 
 def pipeTok (w : String) : Bool :=
   w = "long" || w = "nosd" || w.startsWith "bs=" || w.startsWith "w=" || w.startsWith "lay=" || w.startsWith "perm="
@@ -521,7 +568,7 @@ def runArgv (ws : List String) : String :=
   | cmd :: form :: toks =>
     if !(form = "0" || form = "1" || form = "2") then "bad-op"
     else if cmd = "dist" then
-      if toks.any (fun w => w = "long" || w.startsWith "lay=" || w.startsWith "perm=") then "bad-op" else
+      if toks.any (fun w => w = "long" || w.startsWith "lay=" || w.startsWith "perm=" || w.startsWith "old=") then "bad-op" else
       match toks.foldlM parseDOpt {} with
       | none => "bad-op"
       | some o =>
@@ -539,6 +586,84 @@ def runArgv (ws : List String) : String :=
     else "bad-op"
   | _ => "bad-op"
 
+/-! ### the tokenizer (`argvx` cases: raw argv words through the real command-line parser in a child process) -/
+
+open ObiVerif.Getopt in
+def grepStateE (st : Getopt.St) : String :=
+  joinSp [
+    "restrict-to-taxon=" ++ lsS (allValues st "restrict-to-taxon"),
+    "ignore-taxon=[" ++ ",".intercalate (allValues st "ignore-taxon") ++ "]",
+    "require-rank=" ++ lsS (allValues st "require-rank"),
+    "min-length=" ++ lastValue st "min-length" "0", "max-length=" ++ lastValue st "max-length" "2000000000",
+    "min-count=" ++ lastValue st "min-count" "0", "max-count=" ++ lastValue st "max-count" "2000000000",
+    "sequence=" ++ lsS (allValues st "sequence"), "definition=" ++ lsS (allValues st "definition"),
+    "identifier=" ++ lsS (allValues st "identifier"), "predicate=" ++ lsS (allValues st "predicate"),
+    "id-list=" ++ hexS (lastValue st "id-list" ""), "taxdump=" ++ hexS (lastValue st "taxdump" ""),
+    "has-attribute=" ++ lsS (allValues st "has-attribute"),
+    "attribute=" ++ mpS (mapValues st "attribute"),
+    "inverse-match=" ++ lastValue st "inverse-match" "0",
+    "save-discarded=" ++ hexS (lastValue st "save-discarded" ""),
+    "paired-mode=" ++ hexS (lastValue st "paired-mode" "forward"),
+    "approx-pattern=" ++ lsS (allValues st "approx-pattern"),
+    "pattern-error=" ++ lastValue st "pattern-error" "0",
+    "allows-indels=" ++ lastValue st "allows-indels" "0",
+    "only-forward=" ++ lastValue st "only-forward" "0"]
+
+open ObiVerif.Getopt in
+def annotStateE (st : Getopt.St) : String :=
+  joinSp [
+    "clear=" ++ lastValue st "clear" "0", "length=" ++ lastValue st "length" "0",
+    "aho-corasick=" ++ hexS (lastValue st "aho-corasick" ""),
+    "pattern=" ++ hexS (lastValue st "pattern" ""), "pattern-name=" ++ hexS (lastValue st "pattern-name" "pattern"),
+    "add-lca-in=" ++ hexS (lastValue st "add-lca-in" ""),
+    "set-identifier=" ++ hexS (lastValue st "set-identifier" ""),
+    "cut=" ++ hexS (lastValue st "cut" ""),
+    "set-tag=" ++ mpS (mapValues st "set-tag"), "rename-tag=" ++ mpS (mapValues st "rename-tag"),
+    "delete-tag=" ++ lsS (allValues st "delete-tag"), "with-taxon-at-rank=" ++ lsS (allValues st "with-taxon-at-rank"),
+    "taxonomic-path=" ++ lastValue st "taxonomic-path" "0", "taxonomic-rank=" ++ lastValue st "taxonomic-rank" "0",
+    "scientific-name=" ++ lastValue st "scientific-name" "0",
+    "keep=" ++ lsS (allValues st "keep"),
+    "lca-error=" ++ lastValue st "lca-error" "0"]
+
+open ObiVerif.Getopt in
+def distStateE (st : Getopt.St) : String :=
+  joinSp [
+    "pattern=" ++ hexS (lastValue st "pattern" ""), "classifier=" ++ hexS (lastValue st "classifier" ""),
+    "directory=" ++ hexS (lastValue st "directory" ""), "na-value=" ++ hexS (lastValue st "na-value" "NA"),
+    "batches=" ++ lastValue st "batches" "0", "append=" ++ lastValue st "append" "0",
+    "hash=" ++ lastValue st "hash" "0"]
+
+def showErr : Getopt.Err → String
+  | .ambiguous w => "ambiguous " ++ hexS w
+  | .missing a => "missing-arg " ++ hexS a
+  | .dashArg a => "dash-arg " ++ hexS a
+  | .badInt a v => "int " ++ hexS a ++ " " ++ hexS v
+  | .badFloat a v => "float " ++ hexS a ++ " " ++ hexS v
+  | .notKV a => "keyvalue " ++ hexS a
+  | .unknown n => "unknown " ++ hexS n
+  | .required _ => "required"
+
+/-- `argvx <command> <expectation> <hex argv words…>`: exit status and message class, or the option
+globals and the remaining words -/
+def runArgvx (ws : List String) : String :=
+  match ws with
+  | cmd :: _expect :: hexWords =>
+    match hexWords.mapM (fun h => if h = "-" then some "" else unhexS h) with
+    | none => "bad-op"
+    | some argv =>
+      if argv.any (fun w => w.contains '\n') then "bad-op" else
+      let go := fun (decls : List Getopt.Decl) (state : Getopt.St → String) =>
+        match Getopt.outcome decls argv with
+        | .ok st => "ok " ++ state st ++ " rest=[" ++ ",".intercalate (st.text.map hexS) ++ "]"
+        | .help => "exit=1 help"
+        | .version => "exit=0 version"
+        | .error e => "exit=1 " ++ showErr e
+      if cmd = "grep" then go Getopt.grepDecls grepStateE
+      else if cmd = "annot" then go Getopt.annotDecls (fun st => grepStateE st ++ " " ++ annotStateE st)
+      else if cmd = "dist" then go Getopt.distDecls distStateE
+      else "bad-op"
+  | _ => "bad-op"
+
 def runDistIO (ws : List String) (recs : List (Rec × Option Rec)) : String :=
   match ws.foldlM parseDOpt {} with
   | none => "bad-op"
@@ -547,7 +672,7 @@ def runDistIO (ws : List String) (recs : List (Rec × Option Rec)) : String :=
     if !o.hasPat || (d.classifierTag = "" && d.batchCount = 0 && d.hashSize = 0) ||
         (d.directoryTag ≠ "" && d.classifierTag = "") then "bad-op"
     else if !layPermOK o.bs o.lay o.perm recs.length then "bad-op"
-    else if recs.any (fun rm => rm.2.isSome || !idOK rm.1.id || !seqOK rm.1.seq) then "bad-op"
+    else if recs.any (fun rm => rm.2.isSome || !idOK rm.1.id || !seqOK rm.1.seq || rm.1.id.startsWith "old") then "bad-op"
     else if !(recs.map (·.1.id)).Nodup then "bad-op"
     else
       match Distribute.cliClassifier d with
@@ -557,9 +682,9 @@ def runDistIO (ws : List String) (recs : List (Rec × Option Rec)) : String :=
         -- class values that are not plain file names are not end-to-end cases
         if (rs.zipIdx).any (fun ri =>
             let kd := Distribute.classOf c ri.2 ri.1
-            !idOK kd.1 || (kd.2 ≠ "" && !idOK kd.2)) then "bad-op"
+            !keyOK kd.1 || (kd.2 ≠ "" && !dirOK kd.2)) then "bad-op"
         else
-          let files := (Distribute.distributeFiles d c rs).foldr insFile []
+          let files := (Distribute.distributeFilesOn d c o.old rs).foldr insFile []
           if files.isEmpty then "-"
           else joinSp (files.map fun f => f.1 ++ "=" ++ showIds f.2)
 
@@ -603,6 +728,7 @@ def run (line : String) : String :=
   | [head, recs] =>
     match words head, parseRecs recs with
     | "argv" :: ws, _ => if recs = "-" then runArgv ws else "bad-op"
+    | "argvx" :: ws, _ => if recs = "-" then runArgvx ws else "bad-op"
     | "distio" :: ws, some rs => runDistIO ws rs
     | ["class", k1, k2, na], some rs =>
       match unhexS k1, unhexS k2, unhexS na with
